@@ -92,11 +92,12 @@ Stack(f) ==
 (* label, inner labels in order of first appearance); the outer labels stay as columns; cell ((row, inner), outer) is the source     *)
 (* cell at (row, (outer, inner)) where that column exists and the missing marker elsewhere - every cell exactly as it was             *)
 StackH(f) ==
-  LET outers == Dedupe([j \in 1..NCols(f) |-> f.columns[j][2][1]])
-      inners == Dedupe([j \in 1..NCols(f) |-> f.columns[j][2][2]])
+  (* (columns of depth d > 2 keep their outer d - 1 levels as a hierarchy: the remaining column label is the tuple of those levels) *)
+  LET outers == Dedupe([j \in 1..NCols(f) |-> MkLabel(SubSeq(f.columns[j][2], 1, Len(f.columns[j][2]) - 1))])
+      inners == Dedupe([j \in 1..NCols(f) |-> f.columns[j][2][Len(f.columns[j][2])]])
       n == NRows(f)  m == Len(inners)
       pos(k) == <<((k - 1) \div m) + 1, ((k - 1) % m) + 1>>
-      cell(k, o) == LET c == Find(f.columns, Tup(<<outers[o], inners[pos(k)[2]]>>)) IN IF c < 0 THEN NaN ELSE CellAt(f, pos(k)[1], c + 1)
+      cell(k, o) == LET c == Find(f.columns, Tup(Levels(outers[o]) \o <<inners[pos(k)[2]]>>)) IN IF c < 0 THEN NaN ELSE CellAt(f, pos(k)[1], c + 1)
   IN AnyFrame([k \in 1..(n * m) |-> Tup(Levels(f.index[pos(k)[1]]) \o <<inners[pos(k)[2]]>>)], outers,
               [o \in 1..Len(outers) |-> [k \in 1..(n * m) |-> cell(k, o)]], f.name)
 (* unstack (innermost index level of a depth-2 index into the columns), as a relation: one row per distinct outer label, one column   *)
